@@ -289,7 +289,7 @@ func discharge(o *Obligation, dir string, timeoutS int, which []solverSpec) {
 				wg2.Add(1)
 				go func() {
 					defer wg2.Done()
-					res2 <- runSolver(ctx2, sp, f2, timeoutS)
+					res2 <- runSolver(ctx2, sp, f2, (timeoutS+1)/2)
 				}()
 			}
 			go func() { wg2.Wait(); close(res2) }()
@@ -311,7 +311,7 @@ func discharge(o *Obligation, dir string, timeoutS int, which []solverSpec) {
 	if final == nil && !o.Cover && !o.noSplit {
 		// case split on the "append fits in place" conditions of the most recent appends: the merged
 		// ite(fits, old array, fresh array) base defeats quantifier instantiation, each case is easy
-		if r := splitRetry(o, txt, dir, timeoutS, which); r != nil {
+		if r := splitRetry(o, txt, dir, (timeoutS+2)/3, which); r != nil {
 			final = r
 		}
 	}
@@ -443,9 +443,13 @@ func batchDischarge(u *Unit, obls []*Obligation, dir string, perQueryMs int) {
 		default:
 			if strings.HasPrefix(l, "(error") {
 				// a malformed query poisons the rest of the session: stop trusting the batch
+				u.note("incremental session of %s abandoned: %s", u.rootKey, l)
 				return
 			}
 		}
+	}
+	if len(answers) < len(obls)+1 {
+		u.note("incremental session of %s ended after %d of %d answers (%.0fs, ctx err %v)", u.rootKey, len(answers), len(obls)+1, secs, ctx.Err())
 	}
 	if len(answers) > 0 {
 		u.coverStatus = answers[0]
@@ -584,7 +588,7 @@ func splitRetry(o *Obligation, txt string, dir string, timeoutS int, which []sol
 	if idx < 0 {
 		return nil
 	}
-	budget := float64(8 * timeoutS)
+	budget := float64(6 * timeoutS)
 	var cases []string
 	if ms := orPcRe.FindAllStringSubmatch(txt[:idx], -1); len(ms) > 0 {
 		last := ms[len(ms)-1]
